@@ -30,6 +30,9 @@ type Scope struct {
 	// Anchor: the scope was resolved as a rule anchor (Ctx.S): it is analysed together with
 	// its private helpers (inline.go). Scopes made while iterating over all functions are not.
 	Anchor bool
+	// paramBounds: value ranges a rule assumes for parameters during interval evaluation (K8).
+	paramBounds  map[types.Object]ival
+	dateUnfolded bool
 }
 
 // walk visits the scope's body and, for an anchor, the bodies of its private helpers.
@@ -359,10 +362,15 @@ func (s *Scope) Run(q Query) QResult {
 		}
 		endsInReturn := false
 		endsNoReturn := false
+		helperFailed := false // `return helper(…)` right after the spliced helper returned a non-nil error
 		for ni, top := range xb.nodes {
 			if ni == 0 && cur.ret != 0 {
 				if xb.bindObj != nil {
 					cur.nn, cur.nnVal = xb.bindObj, cur.ret
+				} else if rs, ok := top.(*ast.ReturnStmt); ok && cur.ret == 1 && len(rs.Results) > 0 {
+					if _, isCall := unparen(rs.Results[len(rs.Results)-1]).(*ast.CallExpr); isCall && len(rs.Results) == 1 {
+						helperFailed = true
+					}
 				}
 				cur.ret = 0
 			} else if cur.nn != nil {
@@ -429,7 +437,7 @@ func (s *Scope) Run(q Query) QResult {
 			if rs, ok := top.(*ast.ReturnStmt); ok {
 				endsInReturn = true
 				if cur.started && cur.kind != stPassed && q.ExitIsTarget && xb.inl == 0 {
-					if !(q.OnlyNilErrorReturns && s.lastResultCertainlyNonNil(rs)) {
+					if !(q.OnlyNilErrorReturns && (helperFailed || s.lastResultCertainlyNonNil(rs))) {
 						report(rs, "return reached without passing the barrier")
 					}
 				}
